@@ -1,5 +1,4 @@
 import datetime
-import yearfrac
 from dateutil.relativedelta import relativedelta
 from dateutil import rrule
 
@@ -345,6 +344,56 @@ def YEAR(
     return int(date.strftime("%Y"))
 
 
+def _is_leap(year):
+    return year % 4 == 0 and (year % 100 != 0 or year % 400 == 0)
+
+
+def _is_last_day_of_february(date):
+    return date.month == 2 and date.day == (29 if _is_leap(date.year) else 28)
+
+
+def _days_30_360_us(start, end):
+    """Days between two dates by the US (NASD) 30/360 convention."""
+    d1, d2 = start.day, end.day
+    if _is_last_day_of_february(start):
+        if _is_last_day_of_february(end):
+            d2 = 30
+        d1 = 30
+    if d2 == 31 and d1 >= 30:
+        d2 = 30
+    if d1 == 31:
+        d1 = 30
+    return ((end.year - start.year) * 360
+            + (end.month - start.month) * 30 + (d2 - d1))
+
+
+def _days_30_360_eu(start, end):
+    """Days between two dates by the European 30/360 convention."""
+    d1, d2 = min(start.day, 30), min(end.day, 30)
+    return ((end.year - start.year) * 360
+            + (end.month - start.month) * 30 + (d2 - d1))
+
+
+def _average_year_length(start, end):
+    """Length of the year Excel divides by on the actual/actual basis."""
+    if (start.year == end.year
+            or (end.year == start.year + 1
+                and (start.month, start.day) >= (end.month, end.day))):
+        # Not more than a year apart: 366 if the period lies in a leap year
+        # or contains a 29 February.
+        if start.year == end.year:
+            return 366 if _is_leap(start.year) else 365
+        for year in (start.year, end.year):
+            if _is_leap(year):
+                leap_day = datetime.datetime(year, 2, 29)
+                if start <= leap_day <= end:
+                    return 366
+        return 365
+    # Several years: the average length of the calendar years touched.
+    years = range(start.year, end.year + 1)
+    return sum(366 if _is_leap(year) else 365 for year in years) / len(years)
+
+
 @xl.register()
 @xl.validate_args
 def YEARFRAC(
@@ -373,16 +422,17 @@ def YEARFRAC(
     # Get Python internal types.
     start_date, end_date = start_date.value, end_date.value
 
-    if basis == 0:  # US 30/360
-        return yearfrac.yearfrac(start_date, end_date, '30e360_matu')
+    if basis == 0:  # US (NASD) 30/360
+        return _days_30_360_us(start_date, end_date) / 360
     elif basis == 1:  # Actual/actual
-        return yearfrac.yearfrac(start_date, end_date, 'act_afb')
+        return ((end_date - start_date).days
+                / _average_year_length(start_date, end_date))
     elif basis == 2:  # Actual/360
         return (end_date - start_date).days / 360
     elif basis == 3:  # Actual/365
         return (end_date - start_date).days / 365
-    elif basis == 4:  # Eurobond 30/360
-        return yearfrac.yearfrac(start_date, end_date, '30e360')
+    elif basis == 4:  # European 30/360
+        return _days_30_360_eu(start_date, end_date) / 360
 
     raise xlerrors.ValueExcelError(
         f'basis must be 0, 1, 2, 3 or 4, got {basis}')
